@@ -34,8 +34,11 @@
 //                  the saved image is also an operation for the model).  With the configuration of the uninterrupted
 //                  run, the option on (default) and exact zeros in the saved image this FAILS on the unchanged tree:
 //                  KNOWN-CANDIDATE restart:enforce-initial-positivity-lifts-exact-zeros (deterministic minimal
-//                  reproduction: run_restart_witness).  Switching the option ON for the resumed run of a reconstruction
-//                  made with it off is another configuration and judged only when set_up has nothing to lift.
+//                  reproduction: run_restart_witness).  The class is pinned from both sides: the same restart point with
+//                  the option off must be bitwise equal, and the failing resumed run must be bitwise the run (option off)
+//                  from the lifted image - anything else is an ORACLE-FAIL.  Switching the option ON for the resumed run
+//                  of a reconstruction made with it off is another configuration and judged only when set_up has nothing
+//                  to lift.
 //   refusal      : set_up refuses numbers of subsets that are not balanced
 // Usage: c07_osmaposl <seed> <quick|thorough> <opsfile> <implfile>
 #include "stir_fixtures.h"
@@ -1019,6 +1022,44 @@ run_real_case(const std::string& name, const Geo& g, const Data& d, RunCfg c, vh
                     // default), the zeros of image_k were produced by the run itself (its own start image was made
                     // strictly positive by set_up)
                     g_cov["restart_broken_by_enforced_positivity"]++;
+                    { // ... and the lifting is ALL the option does: a run with the option off, started at k+1 from the
+                      // lifted image, gives the images of the resumed run bitwise (so nothing else hides in this class)
+                      RunCfg cx = c;
+                      cx.enforce = false;
+                      const std::string prefX = prefC + "x";
+                      Objects X = build(g, d, cx, k + 1, c.N, prefX);
+                      shared_ptr<TargetT> imx(read_from_file<TargetT>(prefB + "_" + std::to_string(k) + ".hv"));
+                      from_vec(*imx, after_setup);
+                      if (X.recon->set_up(imx) != Succeeded::yes)
+                        throw std::runtime_error("set_up X");
+                      X.recon->reconstruct(imx);
+                      ++g_checks;
+                      for (int m = k + 1; m <= c.N; ++m)
+                        if (is_saved(m)
+                            && !bitwise_equal(read_image(prefX + "_" + std::to_string(m) + ".hv"),
+                                              read_image(prefC + "_" + std::to_string(m) + ".hv")))
+                          {
+                            oracle_fail("resumed run with enforce_initial_positivity on is not the run (option off) from the lifted image, "
+                                        "iterate " + std::to_string(m) + ", case=" + name + " k=" + std::to_string(k));
+                            break;
+                          }
+                    }
+                    { // size of the deviation (information for the evidence file): largest |resumed - uninterrupted| over
+                      // the saved iterates, relative to the largest voxel of the uninterrupted iterate, in parts per 10^9
+                      double worst = 0;
+                      for (int m = k + 1; m <= c.N; ++m)
+                        {
+                          const std::string f = prefC + "_" + std::to_string(m) + ".hv";
+                          if (!is_saved(m) || !file_exists(f))
+                            continue;
+                          const Vec r = read_image(f);
+                          const double mx = *std::max_element(saved[m].begin(), saved[m].end());
+                          for (int j = 0; j < g.nvox && mx > 0; ++j)
+                            worst = std::max(worst, std::fabs(static_cast<double>(r[j]) - saved[m][j]) / mx);
+                        }
+                      long& w = g_cov["restart_broken_largest_deviation_ppb_of_image_max"];
+                      w = std::max(w, static_cast<long>(std::min(worst, 1e9) * 1e9));
+                    }
                     known_restart_finding("case=" + name + " k=" + std::to_string(k) + " first differing iterate="
                                           + std::to_string(first_diff) + " nsub=" + std::to_string(c.nsub)
                                           + " map=" + std::to_string(c.map_code()));
@@ -1312,12 +1353,15 @@ run_range_cases(const Geo& g, const Data& d, vh::Rng& rng, const std::vector<int
 
 // ------------------------------------------------------------------------------------------------ restart witness
 // Deterministic minimal reproduction of the restart finding on the real class (the counterpart of
-// `C07_restart_fails_with_enforced_positivity` in lean/StirVerif/C07/Props.lean), everything at its default:
+// `C07_restart_fails_with_enforced_positivity` / `C07_restart_fails_zero_subset_sensitivity` in
+// lean/StirVerif/C07/Props.lean), everything at its default and NO special data:
 // 8 detectors x 2 rings, span 1, 5x5x3 image, ray-tracing matrix, the smallest number of subsets > 1 the library accepts,
 // subset sensitivities, no prior, no filter, enforce_initial_positivity = true in BOTH runs, uniform start image 1,
-// counts: 2 in every bin, except 0 in the bins of subset 0 with tangential position >= 0.
-// Voxels seen in subset 0 only by bins without counts become exactly 0 in sub-iteration 1 and stay 0; the run resumed at
-// sub-iteration 2 from the saved image 1 lifts them in set_up, subset 1 (which has counts there) then scales them up.
+// 2 counts in every bin.
+// The voxels that subset 0 does not see have subset sensitivity 0 and become exactly 0 in sub-iteration 1 ("zero where the
+// subset sensitivity s_S is zero") and stay 0 in the uninterrupted run; the run resumed at sub-iteration 2 from the saved
+// image 1 lifts them in set_up, and subset 1 (which sees some of them) updates the lifted values.
+// The resumed run with the option switched off must reproduce the uninterrupted run bitwise (judged strictly).
 static void
 run_restart_witness()
 {
@@ -1336,14 +1380,10 @@ run_restart_witness()
       nsub = n;
   if (nsub == 0)
     return;
-  for (std::size_t b = 0; b < nb; ++b)
-    if (g.basic_view[b] % nsub == 0 && g.bins[b].tangential_pos_num() >= 0)
-      d.y[b] = 0.;
-  d.y_pd = make_pd(g, d.y);
   RunCfg c;
   c.nsub = nsub;
   c.N = 2;
-  const std::string prefU = g_outdir + "/witness_u", prefR = g_outdir + "/witness_r";
+  const std::string prefU = g_outdir + "/witness_u", prefR = g_outdir + "/witness_r", prefO = g_outdir + "/witness_o";
   ++g_checks;
   g_cov["restart_witness_runs"]++;
   try
@@ -1355,6 +1395,7 @@ run_restart_witness()
         throw std::runtime_error("set_up (uninterrupted)");
       U.recon->reconstruct(imu);
       const Vec u1 = read_image(prefU + "_1.hv"), u2 = read_image(prefU + "_2.hv");
+      // resumed with the configuration of the uninterrupted run (option on)
       Objects R = build(g, d, c, 2, 2, prefR);
       shared_ptr<TargetT> imr(read_from_file<TargetT>(prefU + "_1.hv"));
       if (R.recon->set_up(imr) != Succeeded::yes)
@@ -1362,10 +1403,25 @@ run_restart_witness()
       const Vec lifted = to_vec(*imr);
       R.recon->reconstruct(imr);
       const Vec r2 = read_image(prefR + "_2.hv");
-      int zeros = 0, differ = 0, ex = -1;
+      // resumed with the option off: the state is (image_1, 1) only
+      RunCfg coff = c;
+      coff.enforce = false;
+      Objects O = build(g, d, coff, 2, 2, prefO);
+      shared_ptr<TargetT> imo(read_from_file<TargetT>(prefU + "_1.hv"));
+      if (O.recon->set_up(imo) != Succeeded::yes)
+        throw std::runtime_error("set_up (resumed, option off)");
+      O.recon->reconstruct(imo);
+      ++g_checks;
+      if (!bitwise_equal(read_image(prefO + "_2.hv"), u2))
+        oracle_fail("restart witness: resumed run with enforce_initial_positivity off differs from the uninterrupted run");
+      int zeros = 0, positive = 0, differ = 0, ex = -1;
+      bool only_lifted = true; // every voxel that set_up changed was an exact zero of image 1
       for (int j = 0; j < g.nvox; ++j)
         {
           zeros += u1[j] == 0.F;
+          positive += u1[j] > 0.F;
+          if (std::memcmp(&u1[j], &lifted[j], sizeof(float)) != 0 && u1[j] != 0.F)
+            only_lifted = false;
           if (std::memcmp(&u2[j], &r2[j], sizeof(float)) != 0)
             {
               ++differ;
@@ -1374,14 +1430,16 @@ run_restart_witness()
             }
         }
       g_cov["restart_witness_zero_voxels_after_1"] += zeros;
+      g_cov["restart_witness_positive_voxels_after_1"] += positive;
       g_cov["restart_witness_differing_voxels_in_2"] += differ;
-      if (differ > 0 && ex >= 0 && !bitwise_equal(u1, lifted))
+      if (differ > 0 && ex >= 0 && only_lifted && !bitwise_equal(u1, lifted))
         known_restart_finding("witness: 8 detectors x 2 rings, 5x5x3 image, " + std::to_string(nsub)
-                              + " subsets, uniform start image 1, counts 2 everywhere but 0 in the bins of subset 0 with tangential "
-                                "position >= 0, all options at their defaults: image 1 has "
-                              + std::to_string(zeros) + " exact zeros, " + std::to_string(differ)
+                              + " subsets, uniform start image 1, 2 counts in every bin, all options at their defaults: image 1 has "
+                              + std::to_string(zeros) + " exact zeros (voxels with zero sensitivity in subset 0) and "
+                              + std::to_string(positive) + " positive voxels, " + std::to_string(differ)
                               + " voxels of image 2 differ, e.g. voxel " + std::to_string(ex) + ": uninterrupted " + vh::hex(u2[ex])
-                              + ", resumed " + vh::hex(r2[ex]) + " (set_up made it " + vh::hex(lifted[ex]) + ")");
+                              + ", resumed " + vh::hex(r2[ex]) + " (set_up made it " + vh::hex(lifted[ex])
+                              + "); resumed with the option off: bitwise equal");
       else if (differ > 0)
         oracle_fail("restart witness: resumed run differs from the uninterrupted run, but not through lifted zeros");
     }
